@@ -18,6 +18,14 @@ ID_SETS = [
 ]
 
 
+def split_ids(ids, ro_pos):
+    """-> (roCreate's id, the other ids in their given order).  ro_pos: which of the ids (by size) the
+    roCreate carries - it need not be the smallest (a message-ID counter may have restarted)."""
+    srt = sorted(ids)
+    ro = {'min': srt[0], 'mid': srt[len(srt) // 2], 'max': srt[-1]}[ro_pos]
+    return ro, [i for i in ids if i != ro]
+
+
 def messages_for(ids):
     """roCreate gets the first id; the others are order-sensitive messages."""
     g = gen
@@ -38,31 +46,32 @@ def worker(ns, items, res, opts):
     store = coll.FakeS3()
     store.install(ns)
     try:
-        for ids, order, ctor in items:
+        for ids, order, ctor, ro_pos in items:
+            ro_id, rest = split_ids(ids, ro_pos)
+            ids = (ro_id,) + tuple(rest)
             ro_id, msgs = messages_for(ids)
             ro_text = coll.base_ro(msg_id=ro_id)
-            # roCreate must sort first for the collection to make sense: ids[0] is the smallest by construction
             by_id = sorted(zip(ids[1:], msgs))
             ref = coll.fold(ns, ro_text, [t for _, t in by_id], strict=False)
             got = run_collection(ns, ctor, ro_text, msgs, False, tmp, store, order=order)
             res.transitions += 1
             if list(order) != sorted(order):
                 res.nontrivial += 1
-            res.by_class[f'n={len(ids)}:{ctor}'] += 1
+            res.by_class[f'n={len(ids)}:{ctor}:roCreate={ro_pos}'] += 1
             res.by_outcome['failed=%d' % len(ref['failed'])] += 1
             want_ids = sorted(ids[1:])
             if got['exc'] is not None and str(got['exc']).startswith('CTOR'):
                 explore.add_simple_finding(res, prop, f'ctor-failed:{ctor}', f'ids {ids} order {order}: constructor raised {got["exc"]}',
                                            ids=list(ids), order=list(order))
             elif got['reader_ids'] != want_ids:
-                explore.add_simple_finding(res, prop, f'reader-order:{ctor}:digits={"mixed" if len({len(str(i)) for i in ids}) > 1 else "same"}',
+                explore.add_simple_finding(res, prop, f'reader-order:{ctor}:digits={"mixed" if len({len(str(i)) for i in ids}) > 1 else "same"}:roCreate={ro_pos}',
                                            f'ids {ids} supplied in order {order} via from_{ctor}: readers {got["reader_ids"]}, numeric order {want_ids}',
                                            ids=list(ids), order=list(order), got=got)
             elif got['text'] != ref['text']:
-                explore.add_simple_finding(res, prop, f'result-depends-on-order:{ctor}',
+                explore.add_simple_finding(res, prop, f'result-depends-on-order:{ctor}:roCreate={ro_pos}',
                                            f'ids {ids} supplied in order {order} via from_{ctor}: merged result differs from the fold in numeric order',
                                            ids=list(ids), order=list(order), got=got, reference=ref)
-            if ctor == 'strings' and list(order) == sorted(order):
+            if ctor == 'strings' and list(order) == sorted(order) and ro_pos == 'min':
                 # sorting MosFile objects orders them numerically too
                 docs = [ro_text] + msgs
                 for perm in itertools.permutations(range(len(docs))):
@@ -90,13 +99,14 @@ def run(tier):
     sets = ID_SETS if tier == 'thorough' else ID_SETS[:5]
     for ids in sets:
         for n in range(2, min(len(ids), nmax) + 1):
-            sub = tuple(sorted(ids[:n])[:1]) + tuple(i for i in ids[:n] if i != sorted(ids[:n])[0])
+            sub = tuple(ids[:n])
             for order in itertools.permutations(range(n)):
                 for ctor in ('strings', 'files', 's3'):
-                    items.append((sub, order, ctor))
+                    for ro_pos in ('min', 'mid', 'max'):
+                        items.append((sub, order, ctor, ro_pos))
     parts = [{'label': 'permutations', 'worker': worker, 'items': items, 'chunk': 60}]
     return runner.enum_check(
         'C10', tier, parts, rule=RULE,
-        assumptions=['the roCreate carries the smallest message ID of each list (otherwise messages would precede their running order)',
+        assumptions=['the roCreate carries the smallest, the median or the largest message ID of the list (messages with a lower ID are still merged, in ID order)',
                      'for from_s3 the supply order is the listing order of the fake bucket'],
         extra_cov={'id_sets': [list(s) for s in sets], 'max_documents': nmax})
